@@ -524,8 +524,19 @@ impl Run<'_> {
                     } else {
                         variants.push((m2, out));
                     }
-                    if evaluated < 32 {
+                    if evaluated >= 32 {
+                        cov.bump("discard:too_many_open_discard_choices");
+                        self.discarded = true;
+                        return Ok(StepEnd::Stop);
+                    }
+                    {
                         let z: Vec<u64> = variants[0].0.optional_zombies().into_iter().filter(|u| !sub.contains(u)).collect();
+                        if z.len() > 3 {
+                            // more open now-or-later choices than are enumerated: not judged
+                            cov.bump("discard:too_many_open_discard_choices");
+                            self.discarded = true;
+                            return Ok(StepEnd::Stop);
+                        }
                         for more in subsets(&z) {
                             if more.is_empty() {
                                 continue;
